@@ -89,7 +89,7 @@ func init() {
 func init() {
 	props["C13"] = propCfg{Level: "exploration", Race: true,
 		Assume: []string{"two goroutines never operate on the same tree at the same time (the statement promises independence between trees and calls, not thread-safe nodes)", "the sequential specification is the reference model of model/ (state = tree as built so far)"},
-		Rule: "history checking: (a) EVERY sequential history up to length 8 (quick) / 9 (thorough) over {NewRoot (<= 2 live trees), Add(tree, parent in {root, last added}, name in {a,b}), Op(tree)} ending in an operation, with text output, and at shorter bounds with walk, iterator, JSON, custom branches, dry-run, mkdir (jail delta) and verify; (b) seeded random histories of 20-200 calls on <= 6 live trees over 9 operation kinds; (c) the same kind of histories split across 2-8 goroutines with trees handed between goroutines through a channel and independent From-Markdown calls (text, massive, JSON) running concurrently, also on the race-detector build; every call is recorded at the client boundary with logical call/return stamps, histories are partitioned by tree and each partition is checked with porcupine against the specification; distinct key = hash(history, tree); non-trivial = >= 4 calls including an operation"}
+		Rule: "history checking: (a) EVERY sequential history up to length 8 (quick) / 10 (thorough) over {NewRoot (<= 2 live trees), Add(tree, parent in {root, last added}, name in {a,b}), Op(tree)} ending in an operation, with text output, and at shorter bounds with walk, iterator, JSON, custom branches, dry-run, mkdir (jail delta) and verify; (b) seeded random histories of 20-200 calls on <= 6 live trees over 9 operation kinds; (c) the same kind of histories split across 2-8 goroutines with trees handed between goroutines through a channel and independent From-Markdown calls (text, massive, JSON) running concurrently, also on the race-detector build; every call is recorded at the client boundary with logical call/return stamps, histories are partitioned by tree and each partition is checked with porcupine against the specification; distinct key = hash(history, tree); non-trivial = >= 4 calls including an operation"}
 }
 
 func init() {
